@@ -123,7 +123,7 @@ def getVer : List (Nat × Nat) → Nat → Nat
 structure Phase where
   boot : List Stmt
   scripts : Option (Nat × List Stmt)
-  deriving Repr
+  deriving DecidableEq, Repr
 
 def execAll : List Stmt → Cat → Except Err Cat
   | [], c => .ok c
@@ -312,7 +312,7 @@ def altCalls (k : Nat) : List Stmt → Nat → List Call
   | [], _ => []
   | s :: r, i => .script k i s :: .record k (i + 1) :: altCalls k r (i + 1)
 
-inductive Mode | single | replicated | clustered
+inductive Mode | single | replicated | clustered | clusteredReplicated
   deriving DecidableEq, Repr
 
 def emptyDb : Db := ⟨⟨false, []⟩, []⟩
